@@ -1373,6 +1373,7 @@ def run(ctx):
     # text -> tokens: the real lexer (dv tokens over the verif_tokens hook) against coq/C06/Lexer.v, props/c06lex.py
     from props import c06lex
     lex_cov = c06lex.lexer_section(ctx, sys.modules[__name__])
+    lex_cov.update(c06lex.text_section(ctx, sys.modules[__name__]))
     for i, mj in act_dis:
         cases[i]['actions_model'] = mj if mj is not None else 'rejected'
     hist = {}
@@ -1434,7 +1435,7 @@ def run(ctx):
                      'between lower bound is parenthesised; `x instance of T` is parenthesised before `.`; `function` is followed by `(` with only white space between'],
         trusted=['translators/lalr2coq.py (reads the const arrays, TokenType and the reduce arms of lalr.rs by stable syntax)',
                  'translators/lalr2coq.py reading of feel-grammar/src/feel.y (rules, mid-rule actions numbered as bison does; cross-checked against YY_R2, the reduce arms and their comments in lalr.rs, and again in coq/C06/ActionsProofs.v against YY_R1/YY_R2)',
-                 'harness sub-command dv ast (AstNode -> JSON tree)', 'Python renderer for the constructs outside the proved operator fragment',
+                 'harness sub-command dv ast (AstNode -> JSON tree)', 'harness sub-command dv tokens over the read-only hook dmntk_feel_parser::verif_tokens (commit 81e6a85, behind --cfg dmntk_verif)', 'Python renderer for the constructs outside the proved operator fragment',
                  'Python tokeniser of the rendered token lists for the full model (token types from the renderer flags, token values from the generated literals); the lexer itself is exercised only through the real parser',
                  'hand-reviewed expected trees of the directed inputs (props/c06.py DIRECTED_EXPECTED)'])
 
@@ -1464,5 +1465,5 @@ def replay(ctx, path):
 
 MANIFEST = dict(
     technique='Coq proof (round trip of a precedence-climbing Spec parser for all trees; finite theorem on the LALR tables regenerated from lalr.rs every run) with parser/model correspondence',
-    text='coq/Props/C06.v: the committed LALR tables, translated from feel-parser/src/lalr.rs on every run, are proved (vm_compute, bound stated) to build on every ordered pair and triple of operators the tree the Spec parser dictates; the Spec theorems hold for all trees of the operator fragment (no bound): both renderings round-trip (C06_roundtrip_*_tokens), and every pair of parentheses of the minimal rendering is needed (C06_needed_paren / C06_needed_paren_at / C06_all_needed, from the counting soundness invariant C06_min_rendering_minimal: any token list that parses to t has at least the parentheses of render_min t); string-literal decoding has its own model. The real lexer, driver and actions are tied to the Spec by parsing generated trees of the whole language in minimal / full / one-pair-removed renderings under token-preserving layouts and comparing AstNode trees. coq/C06/Actions.v models the whole parser on token lists (the loop of Parser::parse over the regenerated tables with all 90 reduce actions of parser.rs, selected by the action names read from lalr.rs): every generated case of every construct and directed inputs for types, external bodies, date and time literals and the six entry points are run through it and compared node by node with the real parser. C06_actions_stack_safe: for every rule of feel.y (read with the tables on every run) the action of the rule, on every concrete node stack whose top has the kinds the right-hand side symbols are declared to leave, returns Ok and leaves what the left-hand side declares (no pop error, no index panic, no dropped node; abstract actions on node kinds proved sound for all stacks + sweep over the 150 rules); C06_list_roundtrip / C06_nested_lists_roundtrip: lists of every length and nesting round-trip through parse_full (induction through the list_tail actions over the regenerated tables).',
+    text='coq/Props/C06.v: the committed LALR tables, translated from feel-parser/src/lalr.rs on every run, are proved (vm_compute, bound stated) to build on every ordered pair and triple of operators the tree the Spec parser dictates; the Spec theorems hold for all trees of the operator fragment (no bound): both renderings round-trip (C06_roundtrip_*_tokens), and every pair of parentheses of the minimal rendering is needed (C06_needed_paren / C06_needed_paren_at / C06_all_needed, from the counting soundness invariant C06_min_rendering_minimal: any token list that parses to t has at least the parentheses of render_min t); string-literal decoding has its own model. Text level (coq/C06/Lexer.v = model of Lexer::next_token iterated with its four flags; C06_lex_unlex[_layout]: it reads back every printable token list from the printed text, one space or any layout of the modelled grammar between tokens; C06_text_roundtrip_min/full[_layout]: parse_text = lexer model + Spec parser gives the tree back from the TEXT of both renderings, for all trees outside the known finding between-lower-bound-and, C06_text_between_lower_and_refuted for that class); the token stream of the real lexer (hook verif_tokens, dv tokens) is compared with the model token by token (kind, value, position, flags) on printable lists in every layout, every token kind x every white space character / comment, and adversarial glued texts with explicit flag settings. The real lexer, driver and actions are tied to the Spec by parsing generated trees of the whole language in minimal / full / one-pair-removed renderings under token-preserving layouts and comparing AstNode trees. coq/C06/Actions.v models the whole parser on token lists (the loop of Parser::parse over the regenerated tables with all 90 reduce actions of parser.rs, selected by the action names read from lalr.rs): every generated case of every construct and directed inputs for types, external bodies, date and time literals and the six entry points are run through it and compared node by node with the real parser. C06_actions_stack_safe: for every rule of feel.y (read with the tables on every run) the action of the rule, on every concrete node stack whose top has the kinds the right-hand side symbols are declared to leave, returns Ok and leaves what the left-hand side declares (no pop error, no index panic, no dropped node; abstract actions on node kinds proved sound for all stacks + sweep over the 150 rules); C06_list_roundtrip / C06_nested_lists_roundtrip: lists of every length and nesting round-trip through parse_full (induction through the list_tail actions over the regenerated tables).',
     note='Trusted: Coq kernel + vm_compute, lalr2coq.py, the Spec reading of feel.y lines 73-90, harness dv ast, Python renderer for binders/collections (not covered by the Spec theorems), the reading of feel.y by lalr2coq.py (checked against YY_R1/YY_R2 and the reduce arms in Coq), the declared stack effects of the grammar symbols (checked by the sweep), the Python tokeniser feeding the full model. Not formalised: the LR-automaton invariant that would lift stack safety from rules to whole parses.')
